@@ -25,7 +25,12 @@ fn gen_path(rng: &mut Rng) -> Vec<u8> {
 }
 
 fn long_path(rng: &mut Rng) -> Vec<u8> {
-    let len = *rng.pick(&[4093usize, 4094, 4095, 4096, 4097, 4098, 4099, 4100, 4101, 4102, 4103, 4140, 5000]);
+    // rarely: lengths around 2^16 and 2^17, where a 16-bit length computation wraps before it saturates
+    let len = if rng.chance(1, 15) {
+        *rng.pick(&[65535usize, 65536, 65537, 65546, 69630, 69631, 131077])
+    } else {
+        *rng.pick(&[4093usize, 4094, 4095, 4096, 4097, 4098, 4099, 4100, 4101, 4102, 4103, 4140, 5000])
+    };
     let mut p = rng.word(b"ab", 2, 2);
     p.push(b'/');
     while p.len() < len {
@@ -347,6 +352,7 @@ fn gen_gw(rng: &mut Rng) -> Case {
         }
         // paths git refuses (verify_path): components "." ".." ".git", trailing slash ...: keep to safe ones
         e.path = e.path.iter().map(|b| if *b == b'.' { b'x' } else { *b }).collect();
+        e.path.truncate(65535); // the description carries a 16-bit path length
     }
     entries.sort_by(|a, b| a.path.cmp(&b.path).then(a.stage().cmp(&b.stage())));
     entries.dedup_by(|a, b| a.path == b.path && a.stage() == b.stage());
@@ -368,8 +374,11 @@ fn gen(rng: &mut Rng, n: usize) -> Vec<Case> {
     }
     // boundary block: one entry with every path length around the saturation point, each followed
     // by a short entry, v2/v3/v4, serial and threaded
-    for len in [4093usize, 4094, 4095, 4096, 4097, 4098, 4099, 4100, 4101, 4102, 4103, 4104, 4140] {
+    for len in [4093usize, 4094, 4095, 4096, 4097, 4098, 4099, 4100, 4101, 4102, 4103, 4104, 4140, 65535, 65536, 65546, 131077] {
         for version in [2u32, 3, 4] {
+            if len > 5000 && version == 3 {
+                continue;
+            }
             let mut a = gen_entries(rng, version, 1, false);
             a.truncate(1);
             if a.is_empty() {
